@@ -1,4 +1,4 @@
-"""PROTOTYPE C19: regex and XML pipelines edit only their targets (plug-in codemods through run())."""
+"""C19: regex and XML pipelines edit only their targets (plug-in codemods through run())."""
 import base64, collections, json, os, random, re, sys
 import xml.parsers.expat
 from vf.runner import run_check, Violation
@@ -22,7 +22,7 @@ def infoset(text):
     p.Parse(text.encode("utf-8"), True); flush()
     return ev
 
-WORDS = ["alpha", "beta foo", "foo", "gamma", "x=foo;y=foo", "FOO", "barfoo bar", "", "  foo  ", "délta foo"]
+WORDS = ["alpha", "beta foo", "foo", "gamma", "x=foo;y=foo", "FOO", "barfoo bar", "", "  foo  ", "délta foo", "http://a.example/x", "see https://b.example and http://c.example", "secure=TRUE; secure=true", "fo"]
 def gen_text(rnd):
     n = rnd.randint(1, 8); nl = rnd.choice(("\n", "\n", "\r\n"))
     lines = [rnd.choice(WORDS) for _ in range(n)]
@@ -50,7 +50,9 @@ def plan(tier, seed):
     base = ["{proj}", "--output", "{out}", "--path-include", "*.txt,*.xml"]
     for k in range(40 if tier == "quick" else 600):
         files = {f"t{i}.txt": gen_text(rnd) for i in range(rnd.randint(1, 3))}
-        pat, repl = rnd.choice(((r"foo", "bar"), (r"\bfoo\b", "X"), (r"^foo$", "whole"), (r"fo+", ""), (r"(x)=(\w+)", r"\2=\1")))
+        pat, repl = rnd.choice(((r"foo", "bar"), (r"\bfoo\b", "X"), (r"^foo$", "whole"), (r"fo+", ""), (r"(x)=(\w+)", r"\2=\1"),
+                                # normalising pairs: the replacement is itself matched by the pattern, so a line can match and stay byte-identical
+                                (r"https?://", "https://"), (r"(?i)secure=(true|false)", "secure=true"), (r"(?i)foo", "foo"), (r"x*", ""), (r"fo*", "fo")))
         dry = rnd.random() < 0.3
         if rnd.random() < 0.5:
             jobs.append({"id": f"rx{k}", "kind": "regex", "pat": pat, "repl": repl, "texts": files, "dry": dry, "files": {n: b64(t.encode()) for n, t in files.items()}, "plugins": [{"kind": "regex", "name": "rx", "pattern": pat, "replacement": repl}],
